@@ -124,6 +124,11 @@ async fn run_case(case: &Case, kfs: &KnownFindings) -> Result<CaseReport, Failur
     let pre_join_regs: BTreeSet<String> = d.followers.first().map(|f| f.missing_regs.clone()).unwrap_or_default();
     // the leader disappears, the follower is stopped the way the orchestrator stops it (graceful)
     let stop = d.stop().await;
+    let port_taken = matches!(&stop, Err(f) if f.actual.contains("in use") || f.actual.contains("AddrInUse"));
+    if port_taken {
+        rep.inconclusive = true;
+        return Ok(rep);
+    }
     let (f_state, l_regs, f_regs) = match outcome {
         Err(f) if f.signature.get("obs").and_then(|o| o.as_str()) == Some("timeout") => {
             rep.inconclusive = true;
@@ -149,6 +154,11 @@ async fn run_case(case: &Case, kfs: &KnownFindings) -> Result<CaseReport, Failur
     let promoted = Server::start(ncfg).await.map_err(|e| Failure::new("c12.promoted", "the promoted node starts", e))?;
     let got = user_state(&promoted).await;
     let stop = promoted.stop().await;
+    if matches!(&stop, Err(e) if e.contains("in use") || e.contains("AddrInUse")) {
+        // another process on this machine took the port: an accident of the environment
+        rep.inconclusive = true;
+        return Ok(rep);
+    }
     let got = got?;
     stop.map_err(|e| Failure::new("c12.promoted", "clean stop", e))?;
 
